@@ -69,13 +69,14 @@ pub fn strftime(ts: time::OffsetDateTime, fmt: &str) -> Result<String, DateForma
         // Keep track of where the '%' was located, if an unknown format specifier
         // is used we backtrack and copy the whole string directly to the output
         let fmt_pos = ind;
-        let mut cursor = ind;
+        // One past the last byte consumed so far
+        let mut cursor = ind + c.len_utf8();
 
         macro_rules! next {
             () => {{
                 let next = fmt_iter.next();
                 if let Some(nxt) = next {
-                    cursor = nxt.0;
+                    cursor = nxt.0 + nxt.1.len_utf8();
                 }
                 next
             }};
@@ -560,7 +561,7 @@ pub fn strftime(ts: time::OffsetDateTime, fmt: &str) -> Result<String, DateForma
                 output.push(lit);
             }
             Formats::Unknown => {
-                output.push_str(&fmt[fmt_pos..=cursor]);
+                output.push_str(&fmt[fmt_pos..cursor]);
                 continue;
             }
         };
